@@ -5582,14 +5582,21 @@ let seg =
 let cols cfg =
   cfg.c_cols
 
+(** val take_first : inchar list list -> (inchar * istream) option **)
+
+let rec take_first = function
+| [] -> None
+| ch :: rest' ->
+  (match ch with
+   | [] -> take_first rest'
+   | c :: t -> Some (c, { in_cur = t; in_rest = rest' }))
+
 (** val take_char :
     inchar list -> inchar list list -> (inchar * istream) option **)
 
-let rec take_char cur rest =
+let take_char cur rest =
   match cur with
-  | [] -> (match rest with
-           | [] -> None
-           | ch :: rest' -> take_char ch rest')
+  | [] -> take_first rest
   | c :: t -> Some (c, { in_cur = t; in_rest = rest })
 
 (** val next_char : n e **)
